@@ -6,7 +6,9 @@ Require Import MD.Gen.RmsdFormulas MD.Rmsd.Model.
 Import RM.
 Local Open Scope R_scope.
 
-Ltac gen_unfold := autounfold with rmsdgen.
+Ltac gen_unfold := repeat progress autounfold with rmsdgen rmsdgen_snap.
+(* unfold the generated definitions down to the values named at_qsqr_* (the barrier) *)
+Ltac gen_unfold_to_barrier := autounfold with rmsdgen.
 Ltac proj := cbn [Rf.G_x Rf.G_y Rf.numAtoms Rf.M0 Rf.M1 Rf.M2 Rf.M3 Rf.M4 Rf.M5 Rf.M6 Rf.M7 Rf.M8 Rf.h_lambda_1].
 Ltac split_ifs := repeat match goal with |- context [if ?c then _ else _] => destruct c end.
 
@@ -64,7 +66,7 @@ Proof.
           first [ exists 0%nat; solve [adj_tac] | exists 1%nat; solve [adj_tac]
                 | exists 2%nat; solve [adj_tac] | exists 3%nat; solve [adj_tac] ] ].
 Qed.
-Lemma gen_qsqr : forall i, Rf.out_qsqr i = n4 (gen_q i).
+Lemma gen_qsqr : forall i, Rf.at_qsqr_qsqr i = n4 (gen_q i).
 Proof. intros. unfold n4, gen_q. gen_unfold. split_ifs; ring. Qed.
 
 (* --- rotation matrices --------------------------------------------------------------------------- *)
@@ -91,34 +93,31 @@ Qed.
 
 (* rot_orthogonal, rot_det1 for the matrix the code returns -- unconditional: below the threshold the
    identity is returned, above it the normalised quaternion is a unit quaternion *)
+(* the code's threshold is not negative: not falling back means the squared norm is positive *)
+Ltac threshold_pos Hc := autounfold with rmsdgen_cond in Hc; first [lra | nra | (autounfold with rmsdgen in Hc; first [lra | nra])].
+
+Lemma rot_structure : forall i,
+  (Rf.fallback i /\ out_rot i = ident) \/
+  (~ Rf.fallback i /\ 0 < n4 (gen_q i) /\ out_rot i = Rq_unit (gen_q i)).
+Proof.
+  intros i. unfold out_rot, Rf.fallback. gen_unfold_to_barrier.
+  repeat match goal with |- context [if ?c then _ else _] => destruct c as [Hc|Hc] end;
+  first [ left; split; [first [exact Hc | intro Hn; apply Hc; exact Hn] | reflexivity]
+        | right; split; [first [exact Hc | intro Hn; apply Hn; exact Hc]|];
+          assert (P : 0 < n4 (gen_q i)) by (rewrite <- gen_qsqr; threshold_pos Hc);
+          split; [exact P|];
+          rewrite gen_qsqr; unfold Rq_unit, gen_q, Rq in *; destruct (sqrt_sq _ P) as [S1 S2];
+          set (s := sqrt _) in *; f_equal; field; exact S2 ].
+Qed.
 Lemma out_rot_cases : forall i,
   out_rot i = ident \/ (0 < n4 (gen_q i) /\ out_rot i = Rq_unit (gen_q i) /\ ~ Rf.fallback i).
-Proof.
-  intros i. unfold out_rot, Rf.fallback. gen_unfold.
-  repeat match goal with |- context [if ?c then _ else _] => destruct c as [Hc|Hc] end.
-  - left. reflexivity.
-  - right. autounfold with rmsdgen_cond in Hc.
-    assert (P : 0 < n4 (gen_q i)).
-    { rewrite <- gen_qsqr. revert Hc. gen_unfold. intros Hc. lra. }
-    split; [exact P|]. split; [|exact Hc].
-    unfold Rq_unit, gen_q, Rq in *. destruct (sqrt_sq _ P) as [S1 S2]. unfold n4 in *. revert S2. gen_unfold. intros S2.
-    f_equal; field; exact S2.
-Qed.
+Proof. intros i. destruct (rot_structure i) as [[_ E] | (N & P & E)]; [left; exact E | right; repeat split; assumption]. Qed.
 Lemma rot_proper : forall i, proper_rotation (out_rot i).
 Proof.
   intros i. destruct (out_rot_cases i) as [E | (P & E & _)]; rewrite E; [apply ident_proper | apply Rq_unit_proper; exact P].
 Qed.
 Lemma not_fallback_rot : forall i, ~ Rf.fallback i -> 0 < n4 (gen_q i) /\ out_rot i = Rq_unit (gen_q i).
-Proof.
-  intros i H. unfold out_rot, Rf.fallback in *. revert H. gen_unfold.
-  repeat match goal with |- context [if ?c then _ else _] => destruct c as [Hc|Hc] end; intros H.
-  - exfalso. apply H. exact Hc.
-  - assert (P : 0 < n4 (gen_q i)).
-    { rewrite <- gen_qsqr. revert Hc. autounfold with rmsdgen_cond. gen_unfold. intros Hc. lra. }
-    split; [exact P|].
-    unfold Rq_unit, gen_q, Rq in *. destruct (sqrt_sq _ P) as [S1 S2]. unfold n4 in *. revert S2. gen_unfold. intros S2.
-    f_equal; field; exact S2.
-Qed.
+Proof. intros i H. destruct (rot_structure i) as [[F _] | (_ & P & E)]; [contradiction | split; assumption]. Qed.
 
 (* --- residual identity (induction over the atoms) ------------------------------------------------ *)
 Definition overlap (r : mat9) (l : list apair) : R :=
